@@ -41,7 +41,10 @@ class K:
 
 
 class Sub(K):
-    pass
+    """an empty container: its instances are falsy"""
+
+    def __len__(self):
+        return 0
 
 
 class E(K):
